@@ -222,9 +222,9 @@ ModEntityDelete(st, c, eid) ==
 (***************************************************************************)
 (* Join                                                                    *)
 (***************************************************************************)
-ModInit(S, g) ==   \* every loaded module gets a state; dagaz (re)creates its grid (D3)
+ModInit(S, g) ==   \* every loaded module gets a state once per session; dagaz creates its grid with it
   [S EXCEPT !.mods = @ \cup Mods,
-            !.grid = IF "dagaz" \in Mods THEN g ELSE @]
+            !.grid = IF "dagaz" \in Mods /\ "dagaz" \notin S.mods THEN g ELSE @]
 
 JoinInto(st, c, req, s, out0) ==   \* s is registered in st.sess
   LET S0  == st.sess[s]
@@ -233,7 +233,7 @@ JoinInto(st, c, req, s, out0) ==   \* s is registered in st.sess
       o1  == Send(out0, c, JoinResp(req.rid, s, S1.uuid, pid))
       o2  == Send(o1, c, SessState(DOMAIN S1.mem, EntRows(S1), CompRows(S1)))
       o3  == Bcast(o2, Others(S1, pid), JoinB(pid, req.ts))
-      g   == IF "dagaz" \in Mods THEN st.gcur + 1 ELSE st.gcur
+      g   == IF "dagaz" \in Mods /\ "dagaz" \notin S1.mods THEN st.gcur + 1 ELSE st.gcur
       S2  == ModInit(S1, g)
       st1 == [st EXCEPT !.sess[s] = S2, !.gcur = g,
                         !.conns[c] = [@ EXCEPT !.sid = s, !.pid = pid, !.own = {}]]
@@ -245,13 +245,16 @@ JoinStep(st, c, req) ==
   THEN \* J0: already in that session; the module pass still runs (still joined)
        LET r == ModJoin(st, c, Send(NoOut, c, Err(req.rid, ALREADY_JOINED)))
        IN Out1(r.st, r.out, "ok")
+  ELSE IF req.sid # 0 /\ req.sid \notin DOMAIN st.sess
+  THEN \* J3: unknown id - refused before anything is touched; a requester that is
+       \* (still) in a session gets the module states again, as for ALREADY_JOINED
+       IF cn.sid # 0
+       THEN LET r == ModJoin(st, c, Send(NoOut, c, Err(req.rid, NOT_FOUND))) IN Out1(r.st, r.out, "ok")
+       ELSE Out1(st, Send(NoOut, c, Err(req.rid, NOT_FOUND)), "ok")
   ELSE
     LET l   == IF cn.sid # 0 THEN LeaveOf(st, c, NoOut) ELSE [st |-> st, out |-> NoOut]
         st1 == l.st
-    IN IF req.sid # 0 /\ req.sid \notin DOMAIN st1.sess
-       THEN \* J3: unknown id (after the requester was taken out of its session, D5)
-            Out1(st1, Send(l.out, c, Err(req.rid, NOT_FOUND)), "ok")
-       ELSE IF req.sid # 0
+    IN IF req.sid # 0
        THEN LET r == JoinInto(st1, c, req, req.sid, l.out) IN Out1(r.st, r.out, "ok")
        ELSE \* J4: create; the id source hands out any released id, else the next one
             LET cand == IF st1.free # {} THEN st1.free ELSE {st1.cur + 1} IN
